@@ -103,3 +103,25 @@ Theorem C09_sole_layout_fails_only_by_fuel : forall (A : Type) (eqA : A -> A -> 
   (exists w, layout A eqA o fixed sizes (map (fun i => nth i es []) (g_E c)) = Err (ErrFuel w)).
 Proof. exact sole_layout_fails_only_by_fuel. Qed.
 Print Assumptions C09_sole_layout_fails_only_by_fuel.
+
+(* the same with the success of the sole run PROVED (from the totality of Layout, C01): nothing is assumed about
+   the run on the component alone *)
+From Autog Require TotalPipeline C09Close.
+Theorem C09_component_layout_is_sole_layout_translated_total : forall (A : Type) (eqA : A -> A -> bool),
+  (forall x y, eqA x y = true <-> x = y) ->
+  forall o fixed sizes es ids g0 ns eo xs k c,
+  Forall (fun p => length p = 2%nat) es -> TotalPipeline.layout_options_ok A o es ->
+  populate A eqA es = Ok (ids, g0) ->
+  layout A eqA o fixed sizes es = Ok (ids, (ns, eo, xs)) ->
+  nth_error (components (apply_sizes A eqA fixed sizes ids g0)) k = Some c ->
+  exists ids1 ns1 eo1 xs1,
+    layout A eqA o fixed sizes (map (fun i => nth i es []) (g_E c)) = Ok (ids1, (ns1, eo1, xs1)) /\
+    exists gs sigma, inj sigma /\ collect_all o gs 0 = (ns, eo) /\
+      Forall2 (fun c g => exists x, layout_component o c = Ok (g, x))
+              (components (apply_sizes A eqA fixed sizes ids g0)) gs /\
+      Forall2 (onode_shifted sigma (shift_at o gs 0 k)) ns1 (comp_nodes o gs 0 k) /\
+      Forall2 (oedge_shifted sigma (shift_at o gs 0 k)) eo1 (comp_edges o gs 0 k) /\
+      (exists x, layout_component o c = Ok (nth k gs graph0, x) /\
+                 xs1 = match x with Some v => [v] | None => [] end).
+Proof. exact C09Close.component_layout_is_sole_layout_translated_total. Qed.
+Print Assumptions C09_component_layout_is_sole_layout_translated_total.
